@@ -59,7 +59,8 @@ SPECIAL = {
 }
 
 def sh(cmd, **kw):
-    return subprocess.run(cmd, shell=True, capture_output=True, text=True, **kw)
+    env = dict(os.environ, VERIF_WATCHDOG_S=os.environ.get("VERIF_WATCHDOG_S", "600"))
+    return subprocess.run(cmd, shell=True, capture_output=True, text=True, env=env, **kw)
 
 def main():
     sel = sys.argv[1] if len(sys.argv) > 1 else ""
@@ -113,7 +114,7 @@ EQ = [
  ("EQ-style-colours-before-effects", "anstyle/src/style.rs", [("        self.effects.render().fmt(f)?;\n\n        if let Some(fg) = self.fg {\n            fg.render_fg().fmt(f)?;\n        }\n", "        if let Some(fg) = self.fg {\n            fg.render_fg().fmt(f)?;\n        }\n        self.effects.render().fmt(f)?;\n"), ("        self.effects.write_to(write)?;\n\n        if let Some(fg) = self.fg {\n            fg.write_fg_to(write)?;\n        }\n", "        if let Some(fg) = self.fg {\n            fg.write_fg_to(write)?;\n        }\n        self.effects.write_to(write)?;\n")], ["C05"]),
  ("EQ-wincon-ansi-bg-before-fg", "anstyle-wincon/src/ansi.rs", [('        if let Some(fg) = fg {\n            write!(stream, "{}", fg.render_fg())?;\n        }\n        if let Some(bg) = bg {\n            write!(stream, "{}", bg.render_bg())?;\n        }', '        if let Some(bg) = bg {\n            write!(stream, "{}", bg.render_bg())?;\n        }\n        if let Some(fg) = fg {\n            write!(stream, "{}", fg.render_fg())?;\n        }')], ["C17"]),
  ("EQ-strip-stream-extra-flush", "anstream/src/strip.rs", [("    for printable in state.strip_next(buf) {\n        raw.write_all(printable)?;\n    }\n    Ok(())", "    for printable in state.strip_next(buf) {\n        raw.write_all(printable)?;\n    }\n    let _ = raw.flush();\n    Ok(())")], ["C06", "C08", "C01", "C03"]),
- ("EQ-strip-str-single-char-pieces", "anstream/src/adapter/strip.rs", [("    let (printable, next) = bytes.split_at(offset.unwrap_or(bytes.len()));\n    *bytes = next;\n    if printable.is_empty() {\n        None\n    } else {\n        let printable = unsafe {", "    let mut end = offset.unwrap_or(bytes.len());\n    if end > 1 && *state == State::Ground {\n        // yield one character at a time\n        end = 1;\n        while end < bytes.len() && is_utf8_continuation(bytes[end]) {\n            end += 1;\n        }\n    }\n    let (printable, next) = bytes.split_at(end);\n    *bytes = next;\n    if printable.is_empty() {\n        None\n    } else {\n        let printable = unsafe {")], ["C01", "C03", "C04"]),
+ ("EQ-strip-str-single-char-pieces", "anstream/src/adapter/strip.rs", [("    let (printable, next) = bytes.split_at(offset.unwrap_or(bytes.len()));\n    *bytes = next;\n    if printable.is_empty() {\n        None\n    } else {\n        let printable = unsafe {", "    let mut end = offset.unwrap_or(bytes.len());\n    if end > 1 && end < 256 && *state == State::Ground {\n        // yield one character at a time (short runs only: the scan above is repeated per piece)\n        end = 1;\n        while end < bytes.len() && is_utf8_continuation(bytes[end]) {\n            end += 1;\n        }\n    }\n    let (printable, next) = bytes.split_at(end);\n    *bytes = next;\n    if printable.is_empty() {\n        None\n    } else {\n        let printable = unsafe {")], ["C01", "C03", "C04"]),
  ("EQ-roff-nothing", "anstyle-roff/src/lib.rs", [("fn has_bright_fg(style: &Style) -> bool {\n    style\n        .get_fg_color()\n        .as_ref()\n        .map(is_bright)\n        .unwrap_or(false)\n}", "fn has_bright_fg(style: &Style) -> bool {\n    matches!(style.get_fg_color(), Some(c) if is_bright(&c))\n}")], ["C15"]),
  ("EQ-lossy-search-order", "anstyle-lossy/src/lib.rs", [("    let mut best_index = 16;\n    let mut best_distance = distance(color, XTERM_COLORS[best_index]);\n\n    let mut index = best_index + 1;\n    while index < XTERM_COLORS.len() {\n        let distance = distance(color, XTERM_COLORS[index]);\n        if distance < best_distance {\n            best_index = index;\n            best_distance = distance;\n        }\n\n        index += 1;\n    }", "    // search from the top, keeping the lowest index among equals\n    let mut best_index = XTERM_COLORS.len() - 1;\n    let mut best_distance = distance(color, XTERM_COLORS[best_index]);\n\n    let mut index = best_index;\n    while index > 16 {\n        index -= 1;\n        let distance = distance(color, XTERM_COLORS[index]);\n        if distance <= best_distance {\n            best_index = index;\n            best_distance = distance;\n        }\n    }")], ["C10"]),
  ("EQ-git-match-order", "anstyle-git/src/lib.rs", [('        "normal" => None,\n        "-1" => None,', '        "-1" | "normal" => None,')], ["C11"]),
